@@ -63,6 +63,12 @@ def scatterAux : List Rat → List Bool → List Rat → List Rat
 def maskScatter (x : List Rat) (m : List Bool) (vals : List Rat) : Option (List Rat) :=
   if m.length = x.length ∧ vals.length = countTrue m then some (scatterAux x m vals) else none
 
+/-- `np.isinf(x)`: in the rational reading every value is finite -/
+def isinf (_ : Rat) : Bool := false
+
+/-- `np.isinf(v).astype(np.float64)`: the indicator of the infinite entries - there are none -/
+def visinf (v : List Rat) : List Rat := v.map fun _ => 0
+
 /-- `np.sum(v)` -/
 def vsum (v : List Rat) : Rat := v.foldl (· + ·) 0
 
